@@ -317,6 +317,14 @@ func (e *Engine) checkQueryEvents(leakBase int) {
 		h.Evals++
 		resp := byInbox[s.Inbox]
 		if s.Delivered == 0 {
+			if s.Dropped == "draining" {
+				// handed to the channel after the query event expired: the
+				// listener may still pass it on (then it is answered once)
+				if len(resp) > 1 {
+					h.Violate("C15", "query-response-count", "draining", fmt.Sprintf("query request %d delivered while the subscription was draining got %d responses", s.Op.ID, len(resp)))
+				}
+				continue
+			}
 			if len(resp) > 0 {
 				h.Violate("C15", "response-to-undelivered-query", "", fmt.Sprintf("query request %d was %q but got %d responses", s.Op.ID, s.Dropped, len(resp)))
 			}
